@@ -281,4 +281,24 @@ theorem hex_roundtrip : ∀ bs : Bytes, hexUpperDecode (hexUpperEncode bs) = som
     rw [this]
     exact UInt8.ofNat_toNat
 
+/-! ## fraud proofs in JSON -/
+
+/-- what is assumed of prost, for the one message at hand: decoding what it encoded gives the message back -/
+def PbRoundTripOn (pb : PbCodec) (r : RawBefp) : Prop := pb.dec (pb.enc r) = some r
+
+theorem fraud_raw_roundtrip (pb : PbCodec) (p : BefpFull) (hpb : PbRoundTripOn pb (befpToRaw p)) (h : ValidBefp p) :
+    fraudFromRaw pb (fraudToRaw pb p) = some p := by
+  unfold PbRoundTripOn at hpb
+  simp only [fraudFromRaw, fraudToRaw, ↓reduceIte, hpb]
+  exact befp_roundtrip p h
+
+theorem fraud_json_roundtrip (pb : PbCodec) (p : BefpFull) (hpb : PbRoundTripOn pb (befpToRaw p)) (h : ValidBefp p) :
+    fraudFromJson pb (fraudToJson pb p) = some p := by
+  simp only [fraudFromJson, fraudToJson, Lumina.Proofs.Namespace.b64_roundtrip]
+  exact fraud_raw_roundtrip pb p hpb h
+
+theorem fraud_unknown_type_rejected (pb : PbCodec) (r : RawFraudProof) (h : r.proofType ≠ BEFP_TYPE) :
+    fraudFromRaw pb r = none := by
+  simp [fraudFromRaw, h]
+
 end Lumina.Proofs.RoundTrip
